@@ -99,7 +99,9 @@ def main():
             print("wrote", mid)
     finally:
         subprocess.call(["git", "-C", "/repo", "worktree", "remove", "--force", wt])
-    json.dump(meta, open(os.path.join(out, "mutants.json"), "w"), indent=1)
+    # the reverse patches of the seven fix: commits (mutants/reverts/*.patch, generated with `git diff <fix> <fix>^`) stay listed
+    old = [m for m in json.load(open(os.path.join(out, "mutants.json"))) if m["id"].startswith("reverts/")] if os.path.exists(os.path.join(out, "mutants.json")) else []
+    json.dump(meta + old, open(os.path.join(out, "mutants.json"), "w"), indent=1)
 
 if __name__ == "__main__":
     main()
